@@ -377,7 +377,7 @@ def rule_keys(ctx):
     for k, v in m.consts.items():
         if isinstance(v, ast.Call) and v.args and isinstance(v.args[0], ast.Constant) and isinstance(v.args[0].value, str):
             txt = v.args[0].value
-            mt = re.search(r"create table if not exists \$\{catalog\}\.information_schema\.(\w+)\s*\((.*)\)", txt, re.S | re.I)
+            mt = re.search(r"create (?:or replace )?table (?:if not exists )?\$\{catalog\}\.information_schema\.(\w+)\s*\((.*)\)", txt, re.S | re.I)
             if mt:
                 body = mt.group(2)
                 cols = [c.strip().split()[0] for c in body.split(",\n") if c.strip() and not c.strip().upper().startswith("PRIMARY")]
@@ -506,7 +506,10 @@ def rule_no_phantom_comment(ctx):
                           f"information_schema.tables reports the string 'None' as the table's comment")
 
 
+from .c06 import rule_precision_pattern  # noqa: E402  (description of SELECT * must agree on precision and scale)
+
 RULES = [
+    ("C09.g", rule_precision_pattern, ("quick", "thorough")),
     ("C09.f", rule_no_phantom_comment, ("quick", "thorough")),
     ("C09.a", rule_hidden, ("quick", "thorough")),
     ("C09.b", rule_scope, ("quick", "thorough")),
